@@ -304,6 +304,9 @@ Lemma notify_result_XInv x awaiter awaited v data x' :
   XInv x -> notify_result true x awaiter awaited v data = Val x' -> XInv x' /\ xstable x x'.
 Proof.
   intros X H. unfold notify_result in H.
+  destruct (true && negb match get_proc x awaiter with
+                         | Some p => has_key awaited (p_await p) | None => false end) eqn:Ek.
+  { inversion H; subst x'. split; [exact X|apply stable_refl]. }
   apply obind_val in H as ([h1 v1] & Hi & H).
   pose proof X as (W & R & ND).
   destruct (inject_cnt _ _ _ _ _ W Hi) as (W1 & St1 & Cb1 & Rc1).
@@ -547,12 +550,13 @@ Proof.
   apply XInv_put; [exact ND|]. eapply Inv_refs_eq; [exact E|exact (XInv_take _ _ _ X G)].
 Qed.
 
-Lemma fail_result_XInv x pid :
+Lemma fail_result_XInv fx x pid awaited :
   XInv x -> (forall p, get_proc x pid = Some p -> result_refs (p_result p) = []) ->
-  XInv (fail_result x pid).
+  XInv (fail_result fx x pid awaited).
 Proof.
   intros X Hr. unfold fail_result.
   destruct (get_proc x pid) as [p|] eqn:G; [|exact X].
+  destruct (fx && negb (has_key awaited (p_await p))); [exact X|].
   apply (XInv_put_same _ _ _ _ X G). intro i. rewrite !cnt_proc_refs. proj_cbn.
   rewrite (Hr p eq_refl). lia.
 Qed.
@@ -570,11 +574,20 @@ Proof.
   - cbn. constructor; [intros []|constructor].
 Qed.
 
-Example fail_result_refuted : exists x, XInv x /\ ~ RC (fail_result x 0).
+Example fail_result_refuted : exists x, XInv x /\ ~ RC (fail_result false x 0 1).
 Proof.
   exists fr_exec. split; [exact fr_exec_XInv|].
   intro R. specialize (R 0). vm_compute in R. discriminate R.
 Qed.
+
+(* 09625d4: a stale failure (the awaiter no longer awaits the failed process) changes nothing; on
+   the F45h witness the repaired code keeps the Ok result and the exact count *)
+Lemma fail_result_stale x pid awaited p :
+  get_proc x pid = Some p -> has_key awaited (p_await p) = false -> fail_result true x pid awaited = x.
+Proof. intros G K. unfold fail_result. rewrite G, K. reflexivity. Qed.
+
+Example fail_result_repaired : fail_result true fr_exec 0 1 = fr_exec /\ XInv (fail_result true fr_exec 0 1).
+Proof. split; [reflexivity|]. change (fail_result true fr_exec 0 1) with fr_exec. exact fr_exec_XInv. Qed.
 
 Lemma resume_process_XInv x pid fn : XInv x -> XInv (resume_process x pid fn).
 Proof.
